@@ -4,6 +4,7 @@
    served_mono_prop (per address the served epoch never decreases) and served_same_prop (equal epochs imply equal content). *)
 From UM Require Import Base.BytesDef Model.Ctrl Proofs.CtrlProofsInv Proofs.CtrlProofsMain Proofs.CtrlProofsRound
   Proofs.CtrlProofsMig Proofs.CtrlProofsTwo Proofs.CtrlProofsOrder Proofs.CtrlProofsBroker.
+From UM Require Model.CtrlFail Proofs.CtrlProofsFail.
 
 (* For every event sequence whatsoever (drops, duplicates, delays = late Deliver, reordering, coordinator crashes, restarts of
    other proxies, broker changes, any number of coordinators): as long as proxy a is not restarted its installed epoch (of either
@@ -314,6 +315,82 @@ Check C13_reconverge_broker : forall snap m ops lim reports k addrs n (s : state
     installed s' a kd = {| k_epoch := Broker.vp_epoch v; k_content := CtrlProofsBrokerEnc.content_id v |}.
 Print Assumptions C13_reconverge_broker.
 
+(* ====================================================================================================================
+   Failure detection and handling (Model/CtrlFail.v: the detector / handler rounds of the coordinator over the REAL broker
+   model's add_failure / get_failures / replace_failed_proxy / add_proxy).  Events: any coordinator reports any address at any
+   time and as often as it likes (EReport), get_failures answers put replace_proxy calls in a network where they are delayed,
+   dropped, duplicated (EGetFailures / EReplace / EDropCall / EDupCall), proxies go down and come back, the clock ticks,
+   proxies (re-)register, any other broker operation happens.  These compose C18 (Props/C18.v: C18_quorum_distinct,
+   C18_expired_discarded, C18_reregister_clears, C18_failures_wf_step) with the coordinator side.
+   ==================================================================================================================== *)
+
+(* (1) every failover that is carried out (a replace_failed_proxy call answered Done) was licensed by a get_failures answer
+   evaluated on some store sg at clock tg that listed the address; hence (C18_quorum_distinct) the address was registered in sg and
+   at least `quorum` pairwise DISTINCT reporters had each made an add_failure call for it less than ttl before tg *)
+Theorem C07_fail_needs_quorum : forall ttl quorum s0 evs a x,
+  BrokerEpochFail.failures_wf s0 -> Broker.st_failures s0 = [] ->
+  let st := CtrlFail.frun ttl quorum evs (CtrlFail.finit s0) in
+  In (a, x) (CtrlFail.fs_done st) ->
+  exists sg tg, In (a, (sg, tg)) (CtrlFail.fs_auth st)
+    /\ In a (snd (Broker.get_failures sg tg ttl quorum))
+    /\ Broker.amem a (Broker.st_proxies sg) = true
+    /\ exists l : list (N * Z),
+         NoDup (map fst l) /\ quorum <= N.of_nat (length l) /\
+         forall r t, In (r, t) l -> In (a, (r, t)) (CtrlFail.fs_rlog st) /\ (tg - t < ttl)%Z.
+Proof. exact CtrlProofsFail.fail_needs_quorum. Qed.
+Check C07_fail_needs_quorum : forall ttl quorum s0 evs a x,
+  BrokerEpochFail.failures_wf s0 -> Broker.st_failures s0 = [] ->
+  let st := CtrlFail.frun ttl quorum evs (CtrlFail.finit s0) in
+  In (a, x) (CtrlFail.fs_done st) ->
+  exists sg tg, In (a, (sg, tg)) (CtrlFail.fs_auth st)
+    /\ In a (snd (Broker.get_failures sg tg ttl quorum))
+    /\ Broker.amem a (Broker.st_proxies sg) = true
+    /\ exists l : list (N * Z),
+         NoDup (map fst l) /\ quorum <= N.of_nat (length l) /\
+         forall r t, In (r, t) l -> In (a, (r, t)) (CtrlFail.fs_rlog st) /\ (tg - t < ttl)%Z.
+Print Assumptions C07_fail_needs_quorum.
+
+(* (2) if all the coordinators that ever reported address a fit in a set C of fewer than quorum members, a is never failed over -
+   whatever they report, however often, whatever happens to the calls *)
+Theorem C07_fail_single_reporter : forall ttl quorum s0 evs a (C : list N),
+  BrokerEpochFail.failures_wf s0 -> Broker.st_failures s0 = [] ->
+  let st := CtrlFail.frun ttl quorum evs (CtrlFail.finit s0) in
+  (forall r t, In (a, (r, t)) (CtrlFail.fs_rlog st) -> In r C) ->
+  N.of_nat (length C) < quorum ->
+  forall x, ~ In (a, x) (CtrlFail.fs_done st).
+Proof. exact CtrlProofsFail.fail_needs_enough_reporters. Qed.
+Check C07_fail_single_reporter : forall ttl quorum s0 evs a (C : list N),
+  BrokerEpochFail.failures_wf s0 -> Broker.st_failures s0 = [] ->
+  let st := CtrlFail.frun ttl quorum evs (CtrlFail.finit s0) in
+  (forall r t, In (a, (r, t)) (CtrlFail.fs_rlog st) -> In r C) ->
+  N.of_nat (length C) < quorum ->
+  forall x, ~ In (a, x) (CtrlFail.fs_done st).
+Print Assumptions C07_fail_single_reporter.
+
+(* (3) after a proxy re-registered (C18_reregister_clears), as long as nobody reports it again, no get_failures lists it and nothing
+   fails it over - PROVIDED no replace_proxy call for it was already on its way (the broker does not re-validate such a call:
+   C07_example_fail_stale_replace below is the witness) *)
+Theorem C07_fail_reregister_clears : forall ttl quorum st a h i evs,
+  BrokerEpochFail.failures_wf (CtrlFail.fs_store st) ->
+  snd (Broker.add_proxy (CtrlFail.fs_store st) a h i) <> Broker.Fail Broker.E_MissingIndex ->
+  ~ In a (CtrlFail.fs_net st) ->
+  CtrlProofsFail.no_report_of a evs = true ->
+  let st1 := CtrlFail.fstep ttl quorum st (CtrlFail.ERegister a h i) in
+  let st2 := CtrlFail.frun ttl quorum evs st1 in
+  Broker.alookup a (Broker.st_failures (CtrlFail.fs_store st2)) = None /\ ~ In a (CtrlFail.fs_net st2) /\
+  forall x, In (a, x) (CtrlFail.fs_done st2) -> In (a, x) (CtrlFail.fs_done st).
+Proof. exact CtrlProofsFail.fail_reregister_clears. Qed.
+Check C07_fail_reregister_clears : forall ttl quorum st a h i evs,
+  BrokerEpochFail.failures_wf (CtrlFail.fs_store st) ->
+  snd (Broker.add_proxy (CtrlFail.fs_store st) a h i) <> Broker.Fail Broker.E_MissingIndex ->
+  ~ In a (CtrlFail.fs_net st) ->
+  CtrlProofsFail.no_report_of a evs = true ->
+  let st1 := CtrlFail.fstep ttl quorum st (CtrlFail.ERegister a h i) in
+  let st2 := CtrlFail.frun ttl quorum evs st1 in
+  Broker.alookup a (Broker.st_failures (CtrlFail.fs_store st2)) = None /\ ~ In a (CtrlFail.fs_net st2) /\
+  forall x, In (a, x) (CtrlFail.fs_done st2) -> In (a, x) (CtrlFail.fs_done st).
+Print Assumptions C07_fail_reregister_clears.
+
 (* ---------- non-vacuity: a concrete broker history and a concrete faulty run ---------- *)
 
 (* the broker serves proxies 1 and 2; the epoch is the time + 1 (every step changes something) *)
@@ -420,3 +497,34 @@ Proof.
   - apply BrokerEpochMain.restore_free_ok. repeat constructor.
   - split; vm_compute; reflexivity.
 Qed.
+
+(* failure handling: three free proxies, ttl 30 s, quorum 2 *)
+Definition exf_store : Broker.store :=
+  Broker.run (Broker.init_store false)
+    [Broker.OAddProxy 1 (Some 10) None; Broker.OAddProxy 2 (Some 11) None; Broker.OAddProxy 3 (Some 12) None].
+Definition exf_run (evs : list CtrlFail.fevent) : CtrlFail.fstate := CtrlFail.frun 30%Z 2 evs (CtrlFail.finit exf_store).
+
+Example C07_example_fail :
+  BrokerEpochFail.failures_wf exf_store /\ Broker.st_failures exf_store = []
+  (* one reporter, twice: nothing listed *)
+  /\ CtrlFail.fs_net (exf_run [CtrlFail.EReport 7 1; CtrlFail.EReport 7 1; CtrlFail.EGetFailures 9]) = []
+  (* two reporters, the first report expired: nothing listed *)
+  /\ CtrlFail.fs_net (exf_run [CtrlFail.EReport 7 1; CtrlFail.ETick 40; CtrlFail.EReport 8 1; CtrlFail.EGetFailures 9]) = []
+  (* two distinct reporters within ttl: listed and failed over *)
+  /\ CtrlFail.fs_done (exf_run [CtrlFail.EReport 7 1; CtrlFail.ETick 10; CtrlFail.EReport 8 1; CtrlFail.EGetFailures 9;
+                                CtrlFail.EReplace 0 None]) = [(1, None)]
+  (* the proxy re-registers before the handling round: nothing listed *)
+  /\ CtrlFail.fs_net (exf_run [CtrlFail.EReport 7 1; CtrlFail.EReport 8 1; CtrlFail.ERegister 1 (Some 10) None;
+                               CtrlFail.EGetFailures 9]) = [].
+Proof.
+  split; [apply BrokerEpochFail.failures_wf_run; repeat constructor|]. vm_compute. repeat split; reflexivity.
+Qed.
+
+(* the witness for the side condition of C07_fail_reregister_clears: a replace_proxy call issued before the proxy came back and
+   delivered after it re-registered still marks it failed - replace_failed_proxy does not re-check the reports *)
+Example C07_example_fail_stale_replace :
+  let st := exf_run [CtrlFail.EReport 7 1; CtrlFail.EReport 8 1; CtrlFail.EGetFailures 9; CtrlFail.ERegister 1 (Some 10) None;
+                     CtrlFail.EReplace 0 None] in
+  CtrlFail.fs_done st = [(1, None)] /\ Broker.st_failed (CtrlFail.fs_store st) = [1]
+  /\ Broker.alookup 1 (Broker.st_failures (CtrlFail.fs_store st)) = None.
+Proof. vm_compute. repeat split; reflexivity. Qed.
